@@ -527,6 +527,10 @@ func encodeTable(a *artifact) ([]byte, error) {
 		return nil, fmt.Errorf("%T has no Export", a.obj)
 	}
 	fn := filepath.Join(scratch(), "w.table")
+	// an older, longer file at the path must be replaced, not overwritten in place
+	if err := os.WriteFile(fn, []byte(strings.Repeat("9 9 9 9 9 9 9 9 9 9 9 9\n", 40)), 0o644); err != nil {
+		panic(err)
+	}
 	if err := x.Export(fn); err != nil {
 		return nil, err
 	}
